@@ -301,7 +301,14 @@ fn judge_phase(
             continue;
         }
         let reported = robot.kinematics.forward_with_joint_poses(q);
-        let (dt, dr) = oracle::placement_error(&case.cell, &reported, q);
+        let (mut dt, mut dr) = oracle::placement_error(&case.cell, &reported, q);
+        // the tool centre point as well (last link frame times the tool transform)
+        {
+            let tcp = robot.kinematics.forward(q);
+            let own = oracle::independent_forward(&case.cell, q);
+            dt = dt.max((tcp.translation.vector - own.translation.vector).norm());
+            dr = dr.max(tcp.rotation.angle_to(&own.rotation));
+        }
         if dt > 1e-9 || dr > 1e-8 {
             fails.push(Fail {
                 clause: "p:link-placement".into(),
